@@ -746,8 +746,8 @@ def run(ctx):
         ctx.case(c, nontrivial=True)
         check_case(ctx, c, drv)
     quick = ctx.tier == "quick"
-    n_text, n_ast, n_annot = (170, 150, 250) if quick else (2600, 2200, 4000)
-    plan = [("text", n_text), ("ast", n_ast), ("annot", n_annot), ("finding", 3 if quick else 20)]
+    n_text, n_ast, n_annot = (450, 350, 550) if quick else (12000, 9000, 14000)
+    plan = [("finding", 3 if quick else 20), ("text", n_text), ("ast", n_ast), ("annot", n_annot)]
     for stream, n in plan:
         for i in range(n):
             if ctx.time_left() < 0:
@@ -784,4 +784,4 @@ MANIFEST = dict(
     technique="Lean 4 proof (refinement of a listener state machine to a structural specification; permutation/sublist "
               "reasoning over a stable sort) + model/implementation correspondence + direct oracle",
 )
-READY = False
+READY = True
